@@ -352,7 +352,10 @@ pub fn run_dimacs(rng: &mut Rng, count: usize, thorough: bool, extra: &[String],
                 continue;
             }
             let encs = statics::encoders_for(sem, q);
-            let enc = *rng.pick(&encs);
+            let mut enc = *rng.pick(&encs);
+            // the exp encoder is exponential in the product of the defender-set sizes (a performance
+            // matter outside the properties): keep the sessions small enough to be replayed as text
+            if enc == "exp_co" && statics::max_defender_product(&af) > 64 { enc = "hyb_co"; }
             let cert = q != "SE" && rng.chance(1, 2);
             let args = if q == "SE" { vec![] } else { statics::pick_args(rng, &af, 2) };
             out.case(&format!("dimacs/af/{}/{}/{}/{}", sem, q, if cert { "cert" } else { "nocert" }, enc));
